@@ -1,1 +1,76 @@
-From BHW Require Import Model.PaperWallet.
+(* C14 -- Watch-only wallets reproduce all public data and can never yield private data. *)
+From BHW Require Import Lib.Base Lib.ListAux Model.Helper Model.Keys Model.Bip32M Model.Address Model.BaseWallet
+  Model.PaperWallet Spec.Curve Spec.Bip32 Proofs.Bip32 Proofs.Wallet.
+From BHWGen Require Import Consts.
+From Coq Require String.
+Import String.StringSyntax.
+
+Section C14.
+Variable C : curve.
+Hypothesis laws : curve_laws C.
+Hypothesis order_eq : order C = CURVE_ORDER.
+Variable hmac512 : bytes -> bytes -> bytes.
+Variable sha256 hash160 : bytes -> bytes.
+Variable alph : list Z.
+Hypothesis hmac_len : forall k d, length (hmac512 k d) = 64%nat.
+Hypothesis hmac_wf : forall k d, wf_bytes (hmac512 k d).
+Hypothesis hash160_len : forall x, length (hash160 x) = 20%nat.
+
+(* along every non-hardened sub-path, whatever the public-only wallet derives is the public view of what the
+   full wallet derives: same public key, chain code, depth, index, fingerprint ... *)
+Theorem C14_public_agree : forall path nd pn K c',
+  valid_prv nd -> pub_of C nd pn K -> Forall (fun i => 0 <= i) path ->
+  derive_path C hmac512 pn path = Ok c' ->
+  exists c Kc, derive_path C hmac512 nd path = Ok c /\ valid_prv c /\ pub_of C c c' Kc /\
+               (path <> [] -> parent_fingerprint C hash160 c' = parent_fingerprint C hash160 c).
+Proof. exact (derive_pub_sound C laws order_eq hmac512 hash160 hmac_len hmac_wf hash160_len). Qed.
+
+(* ... and therefore the same addresses of all five kinds (they depend on the public key only) *)
+Theorem C14_addresses_public_only : forall nd1 nd2 K t,
+  public_key C nd1 = Ok K -> public_key C nd2 = Ok K ->
+  p2pkh_address C alph sha256 hash160 nd1 t = p2pkh_address C alph sha256 hash160 nd2 t /\
+  p2wpkh_address C alph sha256 hash160 nd1 t = p2wpkh_address C alph sha256 hash160 nd2 t /\
+  p2sh_p2wpkh_address C alph sha256 hash160 nd1 t = p2sh_p2wpkh_address C alph sha256 hash160 nd2 t /\
+  p2wsh_address C sha256 nd1 t = p2wsh_address C sha256 nd2 t /\
+  p2sh_p2wsh_address C alph sha256 hash160 nd1 t = p2sh_p2wsh_address C alph sha256 hash160 nd2 t.
+Proof. exact (addresses_public_only C hmac512 sha256 hash160 alph). Qed.
+
+(* no BIP85, no extended private key (error), prv field None, WIF column None *)
+Theorem C14_no_private : forall w nd,
+  w_watch_only w = true ->
+  bip85_data C hmac512 sha256 hash160 alph w = Err /\
+  (is_prv nd = false -> node_extended_private_key C sha256 hash160 alph w nd = Err) /\
+  (forall keys, node_extended_keys C sha256 hash160 alph w nd = Ok keys -> tget (k "prv") keys = Ok TNone) /\
+  (forall purpose r, row C sha256 hash160 alph purpose w nd = Ok r -> exists a b c, r = TList [a; b; c; TNone]).
+Proof. exact (watch_only_no_private C hmac512 sha256 hash160 alph). Qed.
+
+(* every node a watch-only wallet can reach is public-only, and hardened derivation is refused anywhere in a path *)
+Theorem C14_hardened_refused : forall path nd,
+  is_prv nd = false -> Exists (fun i => 2147483648 <= i) path -> derive_path C hmac512 nd path = Err.
+Proof. exact (derive_pub_hardened C hmac512 sha256 hash160 alph). Qed.
+
+Theorem C14_children_stay_public : forall path nd c,
+  derive_path C hmac512 nd path = Ok c -> is_prv c = is_prv nd /\ ntestnet c = ntestnet nd.
+Proof. exact (derive_class C hmac512 sha256 hash160 alph). Qed.
+
+(* a wallet built from a public version prefix holds a public-only master, i.e. reports itself watch-only *)
+Theorem C14_flags : forall s nd t,
+  from_extended_key alph sha256 s = Ok (nd, t) ->
+  watch_only nd = negb (is_prv nd) /\ ntestnet nd = t.
+Proof.
+  intros s nd t H. split; [reflexivity|]. unfold from_extended_key in H.
+  repeat match type of H with
+  | bind ?x _ = Ok _ => destruct x as [?v|]; cbn [bind] in H; [|discriminate]
+  end.
+  destruct v1 as [[kt bp] tn]. unfold parse_str in H.
+  destruct (decode_base58_checksum alph sha256 s); cbn [bind] in H; [|discriminate].
+  apply Ok_inj in H. inversion H. reflexivity.
+Qed.
+End C14.
+
+Print Assumptions C14_public_agree.
+Print Assumptions C14_addresses_public_only.
+Print Assumptions C14_no_private.
+Print Assumptions C14_hardened_refused.
+Print Assumptions C14_children_stay_public.
+Print Assumptions C14_flags.
